@@ -861,8 +861,10 @@ impl<'a> GeneratorState<'a> {
                     .compiler_state
                     .syntax_error("Unexpected ':'. Probably a ';' typo", pos)),
                 Operation::Comma => {
-                    if self.saved_y {
-                        // The sequence point would give a borrowed Y back too early
+                    if self.saved_y || self.acc_in_use || self.tmp_in_use {
+                        // The sequence point would give a borrowed Y back too early, and the
+                        // operands of the enclosing expression that are kept in the accumulator
+                        // or in the temporary location would be lost
                         return Err(self
                             .compiler_state
                             .syntax_error("Code too complex for the compiler", pos));
